@@ -62,9 +62,15 @@ RAW_EXPECT = {
     "recursion-stack-overflow": ("C01", r"^child-killed signal="),
     "fb-omitted-input-reset": ("C02", r"r1=Int:200 r2=\w+:5 "),
     "fb-input-default-not-applied": ("C02", r"r0=Int:0 "),
-    "fb-call-without-arguments": ("C01", r"^InvalidArgumentCount "),
     "struct-field-initialiser-ignored": ("C02", r" d=DInt:0 "),
     "struct-field-case": ("C01", r"^UndefinedField "),
+}
+
+
+RAW_FIXED = {
+    # witnesses of FIXED findings: the observation the repaired code must give; anything else is a
+    # regression and therefore a violation
+    "fb-call-without-arguments": ("C01", r"^ok frames=0 r=\w+:5 "),
 }
 
 
@@ -119,6 +125,13 @@ def make_extra(pid):
             for l in c.lines:
                 if l.startswith("# rawobs "):
                     _, _, wid, obs = l.split(" ", 3)
+                    fixed = RAW_FIXED.get(wid)
+                    if fixed and fixed[0] == pid and not re.search(fixed[1], obs):
+                        res["oracle_failures"].append({
+                            "what": f"{pid} regression: witness {wid} of a fixed finding misbehaves again",
+                            "signature": f"raw-regression:{wid}", "case": c.n, "seed": ctx["seed"], "tier": tier,
+                            "source": case_source(c), "observed": obs[:300],
+                        })
                     exp = RAW_EXPECT.get(wid)
                     if exp and exp[0] == pid and re.search(exp[1], obs):
                         fid = f"{pid}-{wid}"
